@@ -14,6 +14,7 @@ from harness import kernel, layerb
 from harness.common import SEED, MachineryError, cap, parse_printed_json, run_tlc, scratch, write_ndjson
 
 TOTAL_STRAIN = 1.0  # envelope: strain <= 1 (DESIGN section 6)
+FINE_STRAIN = 0.05  # total strain of the 100-call partition class (very short calls)
 TWOFOLDS = [np.diag([1.0, -1, -1]), np.diag([-1.0, 1, -1]), np.diag([-1.0, -1, 1])]
 RATIONAL_Q = [Rotation.from_quat([x, y, z, w]).as_matrix() for (w, x, y, z) in [(1, 1, 1, 0), (1, 1, 0, 1), (2, 1, 0, 0), (1, 2, 2, 0), (2, 1, 1, 1)]]
 
@@ -48,7 +49,7 @@ def run_member(pd, sc, o0, f0, getL, getx, rate=1.0):
     m = pd.Mineral(phase=phase, fabric=fabric, regime=sc["regime"], n_grains=n, fractions_init=f0.copy(), orientations_init=o0.copy())
     params = layerb.make_params(dict(M=sc["par"]["M"], chi=sc["par"]["chi"], asm=[phase], phiOl=10, x=[5, 0]))
     parts = sc["part"]
-    T = TOTAL_STRAIN / rate
+    T = (FINE_STRAIN if parts >= 100 else TOTAL_STRAIN) / rate
     edges = np.linspace(0.0, T, parts + 1)
     F = np.eye(3)
     out = []
